@@ -9,7 +9,6 @@ package main
 // All identifiers are prefixed with gf to stay clear of the other groups.
 
 import (
-	"errors"
 	"fmt"
 	"io"
 	"log/slog"
@@ -46,6 +45,7 @@ type gfWorld struct {
 	dir       string
 	ruleTexts []string // network rule texts, for request generators
 	hostNames []string // names occurring in hosts-style lines
+	domains   []string // pool domains mentioned anywhere in the lists
 }
 
 var gfHostIPs = []string{"0.0.0.0", "127.0.0.1", "::", "::1", "10.1.2.3", "2001:db8::5"}
@@ -119,6 +119,11 @@ func gfGenWorld(r *rng, maxLines int, fileMode int) *gfWorld {
 					"||" + d + "^$ctag=device_pc", "||" + d + "^$badfilter"})
 				w.ruleTexts = append(w.ruleTexts, line)
 			}
+			for _, d := range poolDomains {
+				if strings.Contains(strings.ToLower(line), d) {
+					w.domains = append(w.domains, d)
+				}
+			}
 			sb.WriteString(line)
 			if i < n-1 || r.chance(3, 4) {
 				sb.WriteString(pick(r, []string{"\n", "\n", "\n", "\r\n"}))
@@ -182,32 +187,62 @@ type gfRead struct {
 	err   error
 }
 
-var errGfFail = errors.New("gf: network rules made unreadable")
-
 // gfSpyList wraps a real RuleList and records every RetrieveRule call, i.e.
-// every cache miss of the storage above it.  With failNet it reports network
-// rules as unreadable (used to make the DNS engine always reach its hosts table).
+// every cache miss of the storage above it.
 type gfSpyList struct {
 	filterlist.RuleList
-	log     *[]gfRead
-	failNet bool
+	log *[]gfRead
+	// hostsOnly, if not empty, is what NewScanner scans instead of the real
+	// content: the same bytes with every line that is not a hosts-style rule
+	// blanked out, so that the rule indices (byte offsets) stay the same.
+	hostsOnly string
+}
+
+// NewScanner implements filterlist.RuleList.
+func (s *gfSpyList) NewScanner() *filterlist.RuleScanner {
+	if s.hostsOnly != "" {
+		return filterlist.NewRuleScanner(strings.NewReader(s.hostsOnly), s.GetID(), false)
+	}
+
+	return s.RuleList.NewScanner()
+}
+
+// gfMaskNonHosts blanks out every line that is not a hosts-style rule.
+func gfMaskNonHosts(text string, id int) string {
+	b := []byte(text)
+	for start := 0; start < len(b); {
+		end := start
+		for end < len(b) && b[end] != '\n' {
+			end++
+		}
+		line := strings.TrimSpace(string(b[start:end]))
+		keep := false
+		if line != "" {
+			if r, err := rules.NewRule(line, id); err == nil {
+				_, keep = r.(*rules.HostRule)
+			}
+		}
+		if !keep {
+			for i := start; i < end; i++ {
+				b[i] = ' '
+			}
+		}
+		start = end + 1
+	}
+
+	return string(b)
 }
 
 func (s *gfSpyList) RetrieveRule(ruleIdx int) (r rules.Rule, err error) {
 	r, err = s.RuleList.RetrieveRule(ruleIdx)
 	under := r
-	if s.failNet {
-		if _, ok := r.(*rules.NetworkRule); ok {
-			r, err = nil, errGfFail
-		}
-	}
 	*s.log = append(*s.log, gfRead{idx: filterlist.VerifStorageIdx(int32(s.GetID()), int32(ruleIdx)), rule: r, under: under, err: err})
 
 	return r, err
 }
 
 // lists builds fresh RuleList values (new file handles for File-backed ones).
-func (w *gfWorld) lists(spy *[]gfRead, failNet bool) (ls []filterlist.RuleList) {
+func (w *gfWorld) lists(spy *[]gfRead, hostsOnly bool) (ls []filterlist.RuleList) {
 	w.materialise()
 	for _, s := range w.specs {
 		var l filterlist.RuleList
@@ -221,7 +256,12 @@ func (w *gfWorld) lists(spy *[]gfRead, failNet bool) (ls []filterlist.RuleList) 
 			l = &filterlist.StringRuleList{ID: s.id, RulesText: s.text}
 		}
 		if spy != nil {
-			l = &gfSpyList{RuleList: l, log: spy, failNet: failNet}
+			sl := &gfSpyList{RuleList: l, log: spy}
+			if hostsOnly {
+				// the DNS engine built over this list knows hosts-style rules only
+				sl.hostsOnly = gfMaskNonHosts(s.text, s.id) + " "
+			}
+			l = sl
 		}
 		ls = append(ls, l)
 	}
@@ -229,8 +269,8 @@ func (w *gfWorld) lists(spy *[]gfRead, failNet bool) (ls []filterlist.RuleList) 
 	return ls
 }
 
-func (w *gfWorld) storage(spy *[]gfRead, failNet bool) *filterlist.RuleStorage {
-	s, err := filterlist.NewRuleStorage(w.lists(spy, failNet))
+func (w *gfWorld) storage(spy *[]gfRead, hostsOnly bool) *filterlist.RuleStorage {
+	s, err := filterlist.NewRuleStorage(w.lists(spy, hostsOnly))
 	if err != nil {
 		panic(err)
 	}
@@ -350,6 +390,8 @@ func gfGenQueryPool(r *rng, w *gfWorld, n int) (qs []*gfQuery) {
 			d := genDNSRequest(r, w.ruleTexts)
 			if len(w.hostNames) > 0 && r.chance(1, 3) {
 				d.Hostname = pick(r, w.hostNames)
+			} else if len(w.domains) > 0 && r.chance(1, 2) {
+				d.Hostname = pick(r, []string{"", "", "www.", "sub."}) + pick(r, w.domains)
 			}
 			qs = append(qs, &gfQuery{kind: "dns", dns: d})
 			// siblings: same name, other client identity
@@ -362,11 +404,17 @@ func gfGenQueryPool(r *rng, w *gfWorld, n int) (qs []*gfQuery) {
 				qs = append(qs, &gfQuery{kind: "dns", dns: &e})
 			}
 		case k < 7:
-			qs = append(qs, &gfQuery{kind: "web", web: genWebRequest(r, w.ruleTexts)})
+			q := genWebRequest(r, w.ruleTexts)
+			if len(w.domains) > 0 && r.chance(1, 3) {
+				q = rules.NewRequest(pick(r, poolSchemes)+"://"+pick(r, w.domains)+pick(r, poolPaths), genSourceURL(r), pick(r, poolReqTypes))
+			}
+			qs = append(qs, &gfQuery{kind: "web", web: q})
 		case k < 9:
 			q := genWebRequest(r, w.ruleTexts)
 			if r.chance(1, 3) {
 				q = hostnameRequest(genDNSRequest(r, w.ruleTexts))
+			} else if len(w.domains) > 0 && r.chance(1, 2) {
+				q = rules.NewRequest(pick(r, poolSchemes)+"://"+pick(r, w.domains)+pick(r, poolPaths), genSourceURL(r), pick(r, poolReqTypes))
 			}
 			qs = append(qs, &gfQuery{kind: "all", web: q})
 		default:
@@ -630,7 +678,8 @@ func (w *gfWorld) netEntry0(t *gfTruth, req *rules.Request, dnsEngine bool) *gfE
 }
 
 // hostEntry observes the candidates of the DNS engine's hosts table for a
-// hostname (network rules are made unreadable so that the table is always reached).
+// hostname, on a fresh engine that was built from the hosts-style lines only (same
+// indices), so that the table is always reached.
 func (w *gfWorld) hostEntry(t *gfTruth, hostname string) *gfEntry {
 	key := "host " + hostname
 	if e, ok := w.memo[key]; ok {
@@ -672,9 +721,13 @@ func gfSortedRids(t *gfTruth, rs []rules.Rule) string {
 		ids[i] = t.ridOf(r)
 	}
 	sort.Ints(ids)
-	items := make([]string, len(ids))
+	// as a set: the hosts table and the domains table do not suppress duplicates
+	// (a name listed twice on one line), the spy sees first occurrences only
+	var items []string
 	for i, x := range ids {
-		items[i] = fmt.Sprint(x)
+		if i == 0 || x != ids[i-1] {
+			items = append(items, fmt.Sprint(x))
+		}
 	}
 
 	return "[" + strings.Join(items, ".") + "]"
